@@ -269,11 +269,13 @@ def correspondence(res, intern, stream, old, diff, code, got, replay):
     struct = copy.deepcopy(old)
     resolved = diffing.resolve_diff_references(copy.deepcopy(diff), struct)
     enc = l2.Encoder(intern, canonical=True)
+    enc.unshare_const_tuples = True
     root_ref = enc.ref(struct)
     changes_g = g_list([c10.g_change(enc, ch) for ch in resolved.changes])
     heap = enc.heap()
     parents_g = g_list([c08.g_path(enc, p) for p in parents])
     enc2 = l2.Encoder(intern, canonical=True)
+    enc2.unshare_const_tuples = True
     after_root = enc2.ref(got)
     enc.fns.update(enc2.fns)
     stream.add(f"(mkcase {enc.sigenv()} {heap} {root_ref} {changes_g} {parents_g} "
